@@ -39,14 +39,24 @@ func (u *Unit) resolveHid(fam string, hid int, sortv string) Term {
 			t = a
 		} else {
 			t = u.ctx.Const(fmt.Sprintf("%s@m%d", fam, hid), sortv)
-			u.ctx.Assert(Eq(t, Ite(r.c, a, b)), "heap-merge")
+			u.ctx.AssertAlways(Eq(t, Ite(r.c, a, b)), "heap-merge")
 		}
 	}
 	u.hidMemo[key] = t
 	return t
 }
 
+func (u *Unit) touch(fam string) {
+	if u.inAppendCopy == 0 {
+		if u.touched == nil {
+			u.touched = map[string]bool{}
+		}
+		u.touched[fam] = true
+	}
+}
+
 func (u *Unit) heapGet(st *State, fam, sortv string) Term {
+	u.touch(fam)
 	if t, ok := st.Heap[fam]; ok {
 		return t
 	}
@@ -54,6 +64,7 @@ func (u *Unit) heapGet(st *State, fam, sortv string) Term {
 }
 
 func (u *Unit) viewGet(v *HeapView, fam, sortv string) Term {
+	u.touch(fam)
 	if t, ok := v.Fams[fam]; ok {
 		return t
 	}
